@@ -5,6 +5,11 @@
 //! stdin : one case per line,
 //!         `script=2,1 panics=1.0,2.1 [bombs=1.0] sched=random|pct3|dfs seed=123 iters=500 [spur=K|inf]`
 //!         (`bombs`: calls that panic with a payload whose own `Drop` panics)
+//!         `vec=fresh|clear|append|pre<k>.<c>`: the result vector handed to
+//!         `par_extend`: a fresh one per broadcast (default), ONE vector
+//!         cleared before every broadcast (what `bench_loop_threaded` does with
+//!         its sample buffer), one vector appended to, or one vector that
+//!         starts with k elements and capacity c and is appended to
 //!         (`spur`: spurious park wake-ups allowed per schedule; default `inf`,
 //!         for `dfs` 1)
 //! stdout: one line per case, the distinct traces joined by ` ## `, each
@@ -58,18 +63,53 @@ impl Drop for Bomb {
     }
 }
 
+/// How the result vector is managed across the broadcasts of a script.
+#[derive(Clone, Copy, PartialEq)]
+enum VecMode {
+    Fresh,
+    Clear,
+    Append,
+    Pre(usize, usize),
+}
+
 /// One shuttle execution: a scripted sequence of broadcasts on one pool.
-fn body(script: &[usize], panics: &Arc<HashSet<(usize, usize)>>, bombs: &Arc<HashSet<(usize, usize)>>) {
+fn body(
+    script: &[usize],
+    panics: &Arc<HashSet<(usize, usize)>>,
+    bombs: &Arc<HashSet<(usize, usize)>>,
+    vmode: VecMode,
+) {
     sched_std::reset(); // registers the main task as thread 0
     let pool = ThreadPool::new();
+    let mut shared: Vec<Option<usize>> = match vmode {
+        VecMode::Pre(k, c) => {
+            let mut v = Vec::with_capacity(c.max(k));
+            v.extend((0..k).map(|j| Some(1000 + j)));
+            v
+        }
+        _ => Vec::new(),
+    };
 
     for (b0, &n) in script.iter().enumerate() {
         let b = b0 + 1;
         log(format!("B.{n}"));
 
-        // Spare capacity: an out-of-range index of a mutant must not write
-        // outside the buffer.
-        let mut v: Vec<Option<usize>> = Vec::with_capacity(n + 16);
+        // Fresh vector: spare capacity, so that an out-of-range index of a
+        // broken pool does not write outside the buffer.
+        let mut fresh: Vec<Option<usize>> = Vec::new();
+        let v: &mut Vec<Option<usize>> = match vmode {
+            VecMode::Fresh => {
+                fresh = Vec::with_capacity(n + 16);
+                &mut fresh
+            }
+            VecMode::Clear => {
+                shared.clear();
+                &mut shared
+            }
+            VecMode::Append | VecMode::Pre(..) => &mut shared,
+        };
+        let old: Vec<Option<usize>> = v.clone();
+        let old_len = old.len();
 
         let ctx: &'static Ctx = Box::leak(Box::new(Ctx { b, panics: Arc::clone(panics), bombs: Arc::clone(bombs) }));
         let f = move |i: usize| -> usize {
@@ -102,9 +142,25 @@ fn body(script: &[usize], panics: &Arc<HashSet<(usize, usize)>>, bombs: &Arc<Has
         // A panic may escape `broadcast` (a caught payload whose destructor
         // panics): it is an outcome like any other, the trace goes on and the
         // workers run on.  `Z` = left by an escaping panic, `T` = returned.
-        let escaped = catch_unwind(AssertUnwindSafe(|| pool.par_extend(&mut v, n, f))).is_err();
+        let escaped = catch_unwind(AssertUnwindSafe(|| pool.par_extend(&mut *v, n, f))).is_err();
 
-        let slots: Vec<String> = v
+        // Vector discipline (G = guard events, only logged when violated):
+        // len <= capacity, exactly n + 1 new slots, old elements untouched.
+        // Nothing beyond the capacity is ever read.
+        let readable = v.len().min(v.capacity());
+        let broken = v.len() > v.capacity();
+        if broken {
+            log(format!("G.lencap.{}.{}", v.len(), v.capacity()));
+        }
+        if v.len() != old_len + n + 1 {
+            log(format!("G.len.{}.{}", v.len(), old_len + n + 1));
+        }
+        let view: &[Option<usize>] = unsafe { std::slice::from_raw_parts(v.as_ptr(), readable) };
+        if view.len() < old_len || view[..old_len] != old[..] {
+            log("G.old".to_string());
+        }
+
+        let slots: Vec<String> = view[old_len.min(readable)..]
             .iter()
             .map(|s| match s {
                 None => "-".to_string(),
@@ -113,8 +169,13 @@ fn body(script: &[usize], panics: &Arc<HashSet<(usize, usize)>>, bombs: &Arc<Has
             .collect();
         log(format!("{}.{}", if escaped { "Z" } else { "T" }, slots.join(",")));
 
-        // A late write of a mutant must hit live memory.
-        std::mem::forget(v);
+        // A late write of a broken pool must hit live memory; a vector whose
+        // length exceeds its capacity must not be used (or dropped) again.
+        if vmode == VecMode::Fresh {
+            std::mem::forget(fresh);
+        } else if broken {
+            std::mem::forget(std::mem::take(&mut shared));
+        }
     }
 
     log("X".to_string());
@@ -186,6 +247,7 @@ struct Case {
     panics: HashSet<(usize, usize)>,
     bombs: HashSet<(usize, usize)>,
     sched: Sched,
+    vmode: VecMode,
     seed: u64,
     iters: usize,
     /// Spurious wake-ups allowed per execution (None = unbounded).
@@ -198,6 +260,7 @@ fn parse(line: &str) -> Case {
         panics: HashSet::new(),
         bombs: HashSet::new(),
         sched: Sched::Random,
+        vmode: VecMode::Fresh,
         seed: 0,
         iters: 100,
         spur: None,
@@ -236,6 +299,17 @@ fn parse(line: &str) -> Case {
                     Sched::Pct(if d.is_empty() { 3 } else { d.parse().expect("pct depth") })
                 } else {
                     panic!("bad sched {v}")
+                }
+            }
+            "vec" => {
+                c.vmode = match v {
+                    "fresh" => VecMode::Fresh,
+                    "clear" => VecMode::Clear,
+                    "append" => VecMode::Append,
+                    _ => {
+                        let (k, cap) = v.strip_prefix("pre").and_then(|r| r.split_once('.')).expect("vec=pre<k>.<c>");
+                        VecMode::Pre(k.parse().expect("k"), cap.parse().expect("c"))
+                    }
                 }
             }
             "seed" => c.seed = v.parse().expect("seed"),
@@ -285,6 +359,7 @@ fn run_chunk(
     script: Arc<Vec<usize>>,
     panics: Arc<HashSet<(usize, usize)>>,
     bombs: Arc<HashSet<(usize, usize)>>,
+    vmode: VecMode,
 ) -> Result<usize, String> {
     let h = std::thread::Builder::new()
         .name("hx-sched-runner".into())
@@ -296,8 +371,17 @@ fn run_chunk(
                     // reports every failure on stderr; failures are outcomes
                     // here, so put the silent hook back on top of it.
                     static SILENCE: std::sync::Once = std::sync::Once::new();
-                    SILENCE.call_once(|| std::panic::set_hook(Box::new(|_| {})));
-                    body(&script, &panics, &bombs)
+                    SILENCE.call_once(|| {
+                        std::panic::set_hook(Box::new(|info| {
+                            // silent, except for std's non-unwinding precondition
+                            // panics (the process aborts right after)
+                            let s = info.to_string();
+                            if s.contains("unsafe precondition") {
+                                eprintln!("hx-sched: {}", s.replace('\n', " "));
+                            }
+                        }))
+                    });
+                    body(&script, &panics, &bombs, vmode)
                 };
                 match sched {
                     Sched::Random => {
@@ -345,7 +429,7 @@ fn replay(line: &str) -> String {
         // the same prefix and the first schedule of PCT hardly depends on the
         // seed, so those two stop at their first failure.
         let seed = case.seed.wrapping_add(all.len() as u64);
-        let r = run_chunk(case.sched, spur, seed, remaining, Arc::clone(&script), Arc::clone(&panics), Arc::clone(&bombs));
+        let r = run_chunk(case.sched, spur, seed, remaining, Arc::clone(&script), Arc::clone(&panics), Arc::clone(&bombs), case.vmode);
         let failure = r.as_ref().err().map(|m| classify(m));
         sched_std::finish(failure);
         let mut new = sched_std::take_finished();
